@@ -151,14 +151,13 @@ UNIQUE_ROLES = ("ids", "ids2", "ascending")      # roles whose large form must n
 
 
 def large_n(itemsize):
-    """elements of a large argument: just over 2^25 bytes (at least 2^21 elements)"""
-    return max(LARGE_BYTES // itemsize, 2 ** 21) + 1
+    """elements of a large argument: just over 2^25 bytes"""
+    return LARGE_BYTES // itemsize + 1
 
 
-def _enlarge(a, role):
-    """the 1-d small array a repeated up to the large size (distinct values for the roles that need them)"""
-    n = large_n(a.dtype.itemsize)
-    big = np.resize(a, n)
+def _enlarge(a, role, n):
+    """the 1-d small array a repeated up to n elements (distinct values for the roles that need them)"""
+    big = np.take(a, np.arange(n) % a.shape[0])
     if a.dtype.names is not None:
         if "id" in a.dtype.names:
             big["id"] = np.arange(1, n + 1)
@@ -168,13 +167,13 @@ def _enlarge(a, role):
     return big
 
 
-def logical(role, kind, nd, val="ord", size="small"):
-    """native, C-contiguous array holding values of class val for the role"""
+def logical(role, kind, nd, val="ord", size="small", nlarge=None):
+    """native, C-contiguous array holding values of class val for the role; nlarge = elements of a large argument"""
     a = _logical(role, kind, nd)
     if size == "large":
         if a.ndim != 1 or role in FIXED_SHAPE:
             raise MachineryError("large arguments are 1-d")
-        a = _enlarge(a, role)
+        a = _enlarge(a, role, nlarge or large_n(a.dtype.itemsize))
     if val == "short":
         if a.ndim != 1:
             raise MachineryError("short arguments are 1-d")
@@ -222,6 +221,8 @@ def _logical(role, kind, nd):
             t = np.zeros(n, dtype=descr)
         return t.reshape(shape)
     if role in FIXED_SHAPE:
+        if kind in EXOTIC:
+            return _exotic([float(v) for v in FIXED_SHAPE[role].ravel()], None, kind).reshape(FIXED_SHAPE[role].shape)
         return FIXED_SHAPE[role].astype(kind)
     if kind == "S":
         vals = {"ids": STR_VALUES, "ids2": STR_VALUES2, "dups": STR_DUPS}.get(role, STR_VALUES)
@@ -525,13 +526,13 @@ def bind(name, opt, A, tmp):
     if name == "coords.euler":
         return lambda: coords.euler(A["ai"], A["bi"], int(opt[-1]))
     if name == "coords.eq2xyz":
-        kw = {"deg": {}, "rad": dict(units="rad"), "stomp": dict(stomp=True), "reject_units": dict(units="furlong")}[opt]
+        kw = {"deg": {}, "rad": dict(units="rad"), "stomp": dict(stomp=True)}[opt]
         return lambda: coords.eq2xyz(A["ra"], A["dec"], **kw)
     if name == "coords.xyz2eq":
-        kw = {"deg": {}, "rad": dict(units="rad"), "stomp": dict(stomp=True), "reject_units": dict(units="furlong")}[opt]
+        kw = {"deg": {}, "rad": dict(units="rad"), "stomp": dict(stomp=True)}[opt]
         return lambda: coords.xyz2eq(A["x"], A["y"], A["z"], **kw)
     if name == "coords.sphdist":
-        return lambda: coords.sphdist(A["ra1"], A["dec1"], A["ra2"], A["dec2"], units=(["furlong", "deg"] if opt == "reject_units" else opt.split("_")))
+        return lambda: coords.sphdist(A["ra1"], A["dec1"], A["ra2"], A["dec2"], units=opt.split("_"))
     if name == "coords.gcirc":
         return lambda: coords.gcirc(A["ra1"], A["dec1"], A["ra2"], A["dec2"], getangle=(opt == "getangle"))
     if name == "coords.eq2sdss":
@@ -624,6 +625,13 @@ def bind(name, opt, A, tmp):
 def build_args(case):
     A = {}
     nd = int(case["nd"])
+    # the large arguments of one call have one number of elements: that of the smallest element among them reaches 2^25 bytes
+    nlarge = None
+    for prm in case["params"]:
+        if prm.get("size") == "large":
+            k = prm["lay"]["kind"]
+            role = "table" if (k == "tbl" and prm["role"] not in ("table", "table2", "table_target")) else prm["role"]
+            nlarge = max(nlarge or 0, large_n(_logical(role, k, 1).dtype.itemsize))
     for prm in case["params"]:
         lay = prm["lay"]
         kind = lay["kind"]
@@ -631,9 +639,9 @@ def build_args(case):
             ids = _htm(BINCOUNT_DEPTH).lookup_id(np.array(ROLE_VALUES["lon"][0]), np.array(ROLE_VALUES["lat"][0]))
             base = ids.astype(kind).reshape(SHAPES[nd])
         elif kind == "tbl" and prm["role"] not in ("table", "table2", "table_target"):
-            base = logical("table", "tbl", nd, prm.get("val", "ord"), prm.get("size", "small"))   # byte-order conversion of a table
+            base = logical("table", "tbl", nd, prm.get("val", "ord"), prm.get("size", "small"), nlarge)   # byte-order conversion of a table
         else:
-            base = logical(prm["role"], kind, nd, prm.get("val", "ord"), prm.get("size", "small"))
+            base = logical(prm["role"], kind, nd, prm.get("val", "ord"), prm.get("size", "small"), nlarge)
         A[prm["p"]] = apply_layout(base, lay)
     return A
 
@@ -800,7 +808,7 @@ def run(ctx):
     for rec in recs[:: max(1, len(recs) // 4)][:4]:
         ctx.sample({"call": rec["call"], "opt": rec["opt"], "nd": rec["nd"], "layouts": rec["lay"], "values": rec["val"], "sizes": rec["size"], "outcome": rec["outcome"],
                     "before": rec["pre"], "after": rec["post"]})
-    chunk = 40000
+    chunk = 50000
     rejected = set()
     for i in range(0, len(recs), chunk):
         rejected |= set(judge(ctx, recs[i:i + chunk], byid, "judge invocations %d.. (FrameTrace)" % (i + 1)))
